@@ -35,7 +35,7 @@ SELFTEST_TASK = ('perm', 0)
 
 def tasks(tier, seed):
     nkeys = 6 if tier == 'thorough' else 5
-    out = [('perm', i) for i in range(nkeys)] + [('subsets',), ('long',)]
+    out = [('perm', i) for i in range(nkeys)] + [('subsets',), ('long',), ('twins',)]
     if tier == 'thorough':
         out += [('m',) + t for t in corpus.method_tasks(tier)]
     else:
@@ -229,6 +229,45 @@ def check_long_keys(ctx):
                         ctx.outcome('ok')
 
 
+def check_twins(ctx):
+    """Equal-valued but distinct values side by side (Decimal('2.5') and
+    Decimal('2.50'), 1 and True and 1.0): every entry keeps its own
+    encoding whatever the order."""
+    p = lib.pamqp()
+    groups = [[A.D('2.5'), A.D('2.50'), A.D('2.500')],
+              [1, True, 1.0, A.D('1')], [0, False, 0.0, A.D('0.00')],
+              ['', bytearray(b'')], [A.dt(5), A.dt(5, None)]]
+    for vals in groups:
+        for r in (2, len(vals)):
+            for order in itertools.permutations(range(len(vals)), r):
+                t = {'k%d' % i: vals[i] for i in order}
+                arr = [vals[i] for i in order]
+                ctx.case(('twins', repr(vals[0]), order), True,
+                         sample=lambda: {'twins': short(arr, 80)})
+                for label, enc, want in (
+                        ('field_table', lambda: p.encode.field_table(t),
+                         refcodec.enc_table(t)),
+                        ('field_array', lambda: p.encode.field_array(arr),
+                         refcodec.enc_array(arr))):
+                    try:
+                        got = enc()
+                        ctx.calls()
+                    except Exception as exc:  # noqa
+                        got = repr(exc).encode()
+                    ctx.valid()
+                    if got != want:
+                        ctx.violation(
+                            'twins|{}|{}|{}'.format(label, vals[0], order),
+                            '{} of equal-valued entries {} encodes as {} '
+                            'but each entry\'s own encoding gives {}'.format(
+                                label, short(arr, 80), got.hex()[:120],
+                                want.hex()[:120]),
+                            {'kind': 'twins'}, want.hex()[:300],
+                            got.hex()[:300])
+                    else:
+                        ctx.outcome('ok')
+
+
 def check_frame_twice(ctx, label, build, marshal, case):
     """build() -> object; marshal(obj) -> bytes.  Twice + non-mutation, and a
     freshly built equal object encodes identically."""
@@ -296,6 +335,8 @@ def run(task, ctx):
         check_subsets(ctx)
     elif kind == 'long':
         check_long_keys(ctx)
+    elif kind == 'twins':
+        check_twins(ctx)
     elif kind in ('m', 'm2'):
         if kind == 'm':
             it = ((m, vec, ch) for m, vec, ch, _i in
@@ -342,6 +383,8 @@ def replay(case, ctx):
         check_subsets(ctx)
     elif kind == 'long':
         check_long_keys(ctx)
+    elif kind == 'twins':
+        check_twins(ctx)
     elif kind == 'method':
         m = spec_table.BY_NAME[case['method']]
         vec = tuple(fromjson(case['vec']))
